@@ -346,6 +346,37 @@ def check(world: WorldA, sysm: System) -> None:
                 res.probe("block_length_changed_by_refresh")
         if single and spa.struct.status_block != blk:
             world.violate(PROP, "unrecorded-write", f"{label}: final block is not the fold of the recorded writes")
+        # what a refresh installs is ONE answer of the spa: the chain it sent in reply to the request that was outstanding (not pieces of an
+        # answer to an earlier, abandoned attempt mixed with it).  Judged when no segment of an earlier answer was still under way.
+        # (only where the network neither duplicates nor delays: a late segment of an earlier answer can otherwise be taken for one of the current)
+        chains: List[bytes] = []
+        cur: List[bytes] = []
+        want_idx = 0
+        for r in hist:
+            if r.dst != tr.local or r.verb != "STATV":
+                continue
+            inner = inner_of(r.data)
+            if inner[5] == 0:
+                cur, want_idx = [], 0
+            if inner[5] != want_idx:
+                cur, want_idx = [], -1
+                continue
+            cur.append(inner[8:8 + inner[7]])
+            want_idx += 1
+            if inner[6] == 0:
+                chains.append(b"".join(cur))
+                cur, want_idx = [], -1
+        if world.cfg["profile"] in ("loss", "faultfree", "stall"):
+            for w in others:
+                same_len = [c for c in chains if len(c) == len(w["segment"])]
+                if not same_len:
+                    res.probe("refresh_answer_not_reconstructible")
+                elif w["segment"] not in same_len:
+                    world.violate(PROP, "replayed-change", f"{label}: the refresh installed at {w['t']:.3f} (offset {w['offset']}, {len(w['segment'])} bytes) is none of the "
+                                  f"{len(same_len)} answers of that length the spa ever sent: pieces of different answers (an abandoned attempt and its retry) "
+                                  f"were installed as one", sig="refresh-mixes-attempts")
+                else:
+                    res.probe("refresh_is_one_answer_of_the_spa")
         # refresh installs that overlap positions a partial update changed
         ppos = {o for o, _ in partial}
         for w in others:
@@ -393,7 +424,7 @@ ASSUMPTIONS = [
     "arrival order is the order of delivery to the client's endpoint (a duplicated datagram is a second arrival)",
     "if the connection is torn down mid-run (rare; probe 'reconnected') only prefix consistency is demanded of the abandoned one",
 ]
-PROBES = ["update_right_behind_a_watercare_answer", "watercare_error_announced", "refresh_restores_a_value_after_an_unreported_revert", "message_with_200_or_more_records", "more_than_a_full_sequence_cycle_of_messages", "two_or_more_messages", "empty_message", "repeated_position_in_message", "duplicate_datagram_arrived",
+PROBES = ["refresh_is_one_answer_of_the_spa", "update_right_behind_a_watercare_answer", "watercare_error_announced", "refresh_restores_a_value_after_an_unreported_revert", "message_with_200_or_more_records", "more_than_a_full_sequence_cycle_of_messages", "two_or_more_messages", "empty_message", "repeated_position_in_message", "duplicate_datagram_arrived",
           "refresh_over_partial", "message_during_handshake", "one_byte_change"]
 N_QUICK = 1200
 
